@@ -46,6 +46,9 @@ FIRST_MISSED = {
     "C17-4": "no check reported it -> SIDFRESH: SetRemote keeps the key only when it reports success (shared by C11 and C17)",
     "C05-5": "own property silent (reported by C18 LOCKORD) -> C05 imports the obligations of the layers below (LAYER/C01,C06,C18,C08,C02,C16)",
     "C05-6": "own property silent (reported by C01 WIN-1, C06 NACKWIRE) -> C05 imports the obligations of the layers below",
+    "C10-5": "no check reported it -> GBNHS-7: a handshake timeout makes the client send its SYN again",
+    "C10-6": "no check reported it -> GBNHS-3: the restart shortcut is entered only through a type test for SYNACK or DATA",
+    "C15-6": "own property silent (reported by C02/C07 for side reasons) -> DUPLEX: Decrypt on the read path returns a fresh buffer; shared by C15",
     "C06-3": "no check reported it -> RATELIMIT: once lastResend is refreshed the packets are transmitted",
 }
 
